@@ -176,8 +176,13 @@ class MEIExporter:
             )
         )
         # Separate by staff
-        staffs = np.vectorize(lambda x: x.staff)(note_or_rest_elements)
-        voices = np.vectorize(lambda x: x.voice)(note_or_rest_elements)
+        if len(note_or_rest_elements) > 0:
+            staffs = np.vectorize(lambda x: x.staff)(note_or_rest_elements)
+            voices = np.vectorize(lambda x: x.voice)(note_or_rest_elements)
+        else:
+            # a measure without notes and rests (e.g. the measure load_kern leaves after the
+            # final barline) is written with empty staves: np.vectorize refuses empty input
+            staffs = voices = np.zeros(0, dtype=int)
         unique_staffs, staff_inverse_map = np.unique(staffs, return_inverse=True)
         unique_voices_par = np.unique(voices)
         voice_staff_map = {
